@@ -26,6 +26,8 @@ def gen_notes(rng, cls, le, core, machine, count=None, allow_header_only_last=Tr
             nm = bytes(rng.choice(b'ABCxyz.-_') for _ in range(ln))
             # namesz counts the terminator; an empty name is either namesz 0 or a lone NUL
             name = b'' if (ln == 0 and rng.random() < 0.5) else nm + b'\0'
+            if ln and rng.random() < 0.1:
+                name += b'\0'           # the size may count more than one terminator (the Go toolchain writes "Go\0\0", size 4)
             desc = bytes(rng.getrandbits(8) for _ in range(rng.choice([0, 1, 2, 3, 4, 5, 6, 7, 8, 9, 33, 70])))
             typ = rng.choice([0, 0x100, 0x7fffffff, 0xdeadbeef, 33, 7, 0x20, 1, 2, 3, 4, 5, 6, NT_FILE])
             if name in (b'GNU\0', b'CORE\0'):
